@@ -18,7 +18,14 @@ PJ = {  # partial-join templates: label -> (fixed leaf columns, predicate)
     "pjoin Y{a,b}": (("a", "b"), None),
     "pjoin Y{a,d} on c<d": (("a", "d"), ("lt", ("ref", "c"), ("ref", "d"))),
     "pjoin Y{d}": (("d",), None),
+    # fixed operands with a non-key column (joins never match on those)
+    "pjoin Y{a,v}": (("a", "v"), None),
+    "pjoin Y{a,b,w}": (("a", "b", "w"), None),
 }
+# second schema: X{a,b,c,v} with a non-key column v
+COLS_V = ("a", "b", "c", "v")
+E_V = ("proj -v", "proj a", "proj none", "proj -c", "proj -a", "calc d", "sel a>k", "dedup", "sort a", "slice s:e", "sort total")
+X_V = ("proj -v", "proj a", "dedup", "sort total", "slice s:e", "sel a>k", "calc d")
 
 
 def shapes(tier, seed):
@@ -50,6 +57,31 @@ def shapes(tier, seed):
             if tier == "thorough":
                 out.append({"e": lab_e, "x": lab + " (fixed lhs)", "e_node": e_node, "x_node": None, "pj": lab,
                             "params": pe.params, "cons": pe.cons, "n": 3, "fixed_lhs": True})
+    # schema with a non-key column
+    seen = set()
+    for lab_e, need_e, make_e in T:
+        if (lab_e not in E_V and tier == "quick") or not need_e(set(COLS_V)) or lab_e in seen:
+            continue
+        seen.add(lab_e)
+        pe = templates.P()
+        e_node = make_e(("leaf", "X"), pe, set(COLS_V))
+        try:
+            cols = set(cols_of(e_node, {"X": COLS_V}))
+        except Exception:  # noqa: BLE001
+            continue
+        seen_x = set()
+        for lab_x, need_x, make_x in T:
+            if lab_x not in X_V or lab_x in seen_x or not need_x(cols):
+                continue
+            seen_x.add(lab_x)
+            px = templates.P()
+            px.n = pe.n
+            out.append({"e": lab_e + " /v", "x": lab_x, "e_node": e_node, "x_node": make_x(e_node, px, cols), "cols": COLS_V,
+                        "params": {**pe.params, **px.params}, "cons": pe.cons + px.cons, "n": 3})
+        for lab in ("pjoin Y{a,v}", "pjoin Y{a,b,w}", "pjoin Y{a,d}"):
+            for lhs in (False, True):
+                out.append({"e": lab_e + " /v", "x": lab + (" (fixed lhs)" if lhs else ""), "e_node": e_node, "x_node": None, "pj": lab,
+                            "cols": COLS_V, "params": pe.params, "cons": pe.cons, "n": 3, "fixed_lhs": lhs})
     return out
 
 
@@ -124,13 +156,14 @@ def _interpret(ctx_or_none, env, shape, concrete=None):
 def run_shape(shape, tier):
     info = {}
     n = shape["n"]
+    xcols = tuple(shape.get("cols") or COLS)
 
     def h(ctx):
         from lsst.daf.relation import Calculation
 
         env = Env(symbolic=True)
-        tab = common.sym_table(ctx, "X", COLS, n, ordered=True, perm=True)
-        add_abstract_leaf(env, "X", COLS, "it1", tab)
+        tab = common.sym_table(ctx, "X", xcols, n, ordered=True, perm=True)
+        add_abstract_leaf(env, "X", xcols, "it1", tab)
         if shape.get("pj"):
             ycols = PJ[shape["pj"]][0]
             ytab = common.sym_table(ctx, "Y", ycols, 2, ordered=True)
@@ -183,7 +216,7 @@ def run_shape(shape, tier):
     vios = []
     for cx in res.cex:
         bind = templates.bind_concrete(shape["params"], cx["model"])
-        rows = common.rows_from_model(cx["model"], "X", COLS, n, perm=True)
+        rows = common.rows_from_model(cx["model"], "X", xcols, n, perm=True)
         yrows = common.rows_from_model(cx["model"], "Y", PJ[shape["pj"]][0], 2) if shape.get("pj") else []
         fails, symptom, detail = concrete_check(shape, rows, yrows, bind)
         if not fails:
@@ -210,7 +243,8 @@ def run_shape(shape, tier):
 
 def concrete_check(shape, rows, yrows, bind):
     env = Env()
-    add_abstract_leaf(env, "X", COLS, "it1", None)
+    xcols = tuple(shape.get("cols") or COLS)
+    add_abstract_leaf(env, "X", xcols, "it1", None)
     if shape.get("pj"):
         add_abstract_leaf(env, "Y", PJ[shape["pj"]][0], "it1", None)
     env.bind = dict(bind)
@@ -248,7 +282,7 @@ def concrete_check(shape, rows, yrows, bind):
             colset = colset | fc
         return new, colset
 
-    cols0 = set(COLS)
+    cols0 = set(xcols)
     try:
         et, ecols = ap(rows, E, cols0) if not _is_calc_overwrite(E, cols0) else (_py_apply(rows, E, yrows), cols0)
         ref, _ = ap(et, x, ecols)
